@@ -201,5 +201,46 @@ pub open spec fn summary_refs(items: Seq<ContextBundleItemV1>, s: Seq<Hierarchic
     proof { assert(__g0.take(__g0.len() as int) =~= __g0); }
 //@@ end
 
+// ---- from the bundle to the provider's input items (session.rs) ----------------------------------------------------------------------------
+pub struct ItemParam { pub role: Seq<char>, pub text: Seq<char>, pub filler: u8 }
+impl ItemParam {
+    #[verifier::external_body] pub fn message_text(role: String, text: String) -> (r: ItemParam) ensures r.role == role@, r.text == text@ { unimplemented!() }
+}
+pub struct CompactionSummaryV1 { pub md: Seq<char>, pub filler: u8 }
+impl CompactionSummaryV1 { #[verifier::external_body] pub fn summary_markdown(&self) -> (r: &str) ensures r@ == self.md { unimplemented!() } }
+pub uninterp spec fn summary_text(artifact: Seq<char>) -> Seq<char>;      // the markdown of the stored summary
+#[verifier::external_body] pub fn read_compaction_summary_v1(root: &Path, artifact_id: &String) -> (r: Result<CompactionSummaryV1, String>)
+    ensures r matches Ok(s) ==> s.md == summary_text(artifact_id@) { unimplemented!() }
+impl ContextBundleV1 {
+    //@@ fn crates/ripd/src/context_bundle.rs ContextBundleV1::items
+    //@@ sig
+        ensures ret@ == self.items@,
+    //@@ end
+}
+// one provider item per bundle item, in order: a message keeps its role and text; a summary ref becomes a system message that ends with the
+// stored summary's markdown
+pub open spec fn item_of(it: ContextBundleItemV1, p: ItemParam) -> bool {
+    match it {
+        ContextBundleItemV1::Message { role, content, .. } => p.role == role@ && p.text == content@,
+        ContextBundleItemV1::SummaryRef { artifact_id, .. } => p.role == "system"@ && exists|head: Seq<char>| #![auto] p.text == head + summary_text(artifact_id@),
+    }
+}
+#[verifier::external_body] pub fn vsummary_content(note: &Option<String>, md: &str) -> (r: String)
+    ensures exists|head: Seq<char>| #![auto] r@ == head + md@ { unimplemented!() }
+
+//@@ fn crates/ripd/src/session.rs openresponses_items_from_context_bundle r7=0
+//@@ rewrite let mut out = Vec::new(); ==>> let mut out: Vec<ItemParam> = Vec::new();
+//@@ rewrite let mut content = String::new(); content.push_str("Compaction summary (earlier context)\n"); if let Some(note) = note.as_ref() { content.push_str(note); content.push('\n'); } content.push_str(summary.summary_markdown()); ==>> let content = vsummary_content(note, summary.summary_markdown());
+//@@ sig
+    ensures
+        ret matches Ok(v) ==> v@.len() == bundle.items@.len() && forall|i: int| 0 <= i < v@.len() ==> item_of(bundle.items@[i], #[trigger] v@[i]),      // [items.one_provider_item_per_bundle_item_in_order_roles_and_texts_kept]
+//@@ loop 0
+    invariant __i0 <= __s0.len(), __s0@ == bundle.items@, out@.len() == __i0,
+        forall|i: int| 0 <= i < out@.len() ==> item_of(bundle.items@[i], #[trigger] out@[i]),
+    decreases __s0.len() - __i0
+//@@ loopbody 0
+    proof { reveal_strlit("system"); }
+//@@ end
+
 } // verus!
 fn main() {}
